@@ -101,9 +101,10 @@ def _hd_len(interp, self, args, kwargs):
 class SymSet(Val):
     """finite set of ints given by a membership predicate and a cardinality term"""
 
-    def __init__(self, member, card, universe_hint=None):
+    def __init__(self, member, card, universe=None):
         self.member = member     # z3 Int -> z3 Bool
         self.card = card         # z3 Int term or python int (number of distinct members)
+        self.universe = universe  # (lo, hi): every member x satisfies lo <= x < hi, or None
 
 
 def make_set(interp, src):
@@ -114,6 +115,11 @@ def make_set(interp, src):
     seq = iter_to_vec(interp, src)
     if seq.elem not in ("int",):
         raise Unsupported("set of non-integers")
+    rd = getattr(seq, "range_desc", None)
+    if rd is not None and conc(rd[2]) == 1:
+        lo, hi = zint(rd[0]), zint(rd[1])
+        card = z3.If(hi > lo, hi - lo, 0)
+        return SymSet(lambda x: z3.And(zint(x) >= lo, zint(x) < hi), z3.simplify(card), universe=(lo, hi))
     n = conc(seq.length)
     if n is not None and n <= 32:
         items = [vget(ctx, seq, i).z for i in range(n)]
@@ -160,7 +166,7 @@ def _set_minus(interp, self: SymSet, args, kwargs):
     ctx = interp.ctx
     card = ctx.int("card")
     ctx.assume(z3.And(card >= 0, card <= zint(self.card)))
-    return SymSet(lambda x: z3.And(self.member(x), z3.Not(o.member(x))), card)
+    return SymSet(lambda x: z3.And(self.member(x), z3.Not(o.member(x))), card, universe=self.universe)
 
 
 @method("SymSet", "__len__")
@@ -191,3 +197,20 @@ def _set_iter(interp, self: SymSet, args, kwargs):
     v.unordered_set_enum = True
     v.set_member = member
     return v
+
+
+def sorted_set(interp, s: SymSet):
+    """library contract for sorted(set): the strictly ascending list of the members.  For a set inside a known integer
+    interval this is exactly the filter of that interval by membership (inverse-function encoding)."""
+    from .lib_np import filter_indices
+    ctx = interp.ctx
+    if s.universe is None:
+        raise Unsupported("sorted() of a set without a known integer range")
+    lo, hi = s.universe
+    if conc(lo) != 0:
+        raise Unsupported("sorted() of a set over an interval not starting at 0")
+    out = filter_indices(interp, conc(hi) if conc(hi) is not None else hi, lambda k: s.member(zint(k)))
+    res = ops.vec_copy(ctx, out, kind="list")
+    res.filter_of = getattr(out, "filter_of", None)
+    res.sorted_of_set = s
+    return res
